@@ -52,7 +52,9 @@ CHECKS["C02"] = dict(
           "chunk-wise with scaled threshold, monotonic and partially monotonic, pre-chunked arrow) and the first-appearance routes are compared with the model. "
           "Sorted-prefix route: monotonic_factorization_faithful (Lemmas/Monotonic.lean, loop invariant of the run detection): for every input the cut-off is "
           "the end of the longest null-free non-decreasing prefix, one code per prefix row, labels strictly increasing, label at a row's code has the row's "
-          "key; monotonic_codes_eq_iff; monotonic_null_first - for any comparison functions that agree with the key order on non-null elements."),
+          "key; monotonic_codes_eq_iff; monotonic_null_first - for any comparison functions that agree with the key order on non-null elements. Several keys, "
+          "end to end: factorize2d_codes_eq_iff - through the per-key factorizations, the mixed-radix combination and the final factorization two rows get "
+          "the same code exactly when both hold a null in some key, or neither does and they agree in every key column."),
     note="pd.factorize / get_indexer / drop_duplicates are assumed (exercised, not proved); the chunk-pointer route is modelled (C03 chunk_route_eq_global) and tied by correspondence.",
     technique="Lean 4 proof (list induction; mixed-radix injectivity) + relations evaluated on the implementation's output for every route + model correspondence",
     design="§7 C02",
@@ -178,7 +180,7 @@ CHECKS["C20"] = dict(
           "the row mask is set iff column i is true, so the label names exactly the true columns (for any number of columns); pretty_cut: with sorted edges "
           "searchsorted puts x into (edge[i-1], edge[i]]. Correspondence: nanops.* vs NumPy / exact rational oracles and the Lean reduce_1d model over "
           "exhaustive null placements x threads 1..8, 2-D axes, nb_dot over ndarray/pandas/polars, all small boolean frames, edge grids incl. values on edges."),
-    note="The executable model reduce1d itself is proved end to end for the additive reductions (reduce1d_sum_threads, reduce1d_count_threads: any thread count, float view, = NumPy nansum / count of non-null); for min / max the chunk theorems are stated over the lists of non-null integers and reduce1d is tied to them by the driver's model=spec echo on every case; an EMPTY chunk (n_threads > len) makes the source read arr[0] of an empty array (undefined in the model) - exercised, no wrong result observed; mean/var/std are exact only in rational arithmetic (float results compared to 1e-9).",
+    note="The executable model reduce1d itself is proved end to end: reduce1d_sum_threads, reduce1d_count_threads (any thread count, float view, = NumPy nansum / count of non-null) and reduce1d_extremum_eq_numpy (max / min, any thread count whose array_split has no empty chunk, = nanmax / nanmin, NaN when all null); an EMPTY chunk (n_threads > len) makes the source read arr[0] of an empty array (undefined in the model) - exercised, no wrong result observed; mean/var/std are exact only in rational arithmetic (float results compared to 1e-9).",
     technique="Lean 4 proof (fold/chunk homomorphism, testBit induction, sorted-search lemma) + reducer translation + differential correspondence against NumPy",
     design="§7 C20",
 )
